@@ -306,14 +306,43 @@ class Eval:
                 if e[0] == "c" and isinstance(e[1], int):
                     return ("in", frozenset([e[1]]))
             g = self.fn.inst(d["ptr"])
-            if g is not None and g.op == "getelementptr" and g["base"].startswith("@") and len(g["path"]) == 2 and \
-                    g["path"][0] == "[#0]" and g["path"][1].startswith("["):
-                # element of a constant table indexed by a value known on this path
+            if g is not None and g.op == "getelementptr" and g["base"].startswith("@") and len(g["path"]) >= 2 and g["path"][0] == "[#0]":
+                # element (or field of an element) of a constant table, indexed by values known on this path
                 gv = self.fn.pdb.glob_in(self.fn.unit, g["base"][1:])
-                if gv and gv.get("const") and isinstance(gv.get("init"), list) and all(isinstance(x, int) for x in gv["init"]):
-                    ix = self.val(g["path"][1][1:-1], depth - 1)
-                    if ix is not None and ix[0] == "in" and all(0 <= k < len(gv["init"]) for k in ix[1]):
-                        return ("in", frozenset(gv["init"][k] for k in ix[1]))
+                if gv and gv.get("const") and isinstance(gv.get("init"), list):
+                    cur = [gv["init"]]
+                    ok = True
+                    for sgm in g["path"][1:]:
+                        nxt = []
+                        if sgm.startswith("["):
+                            ix = self.val(sgm[1:-1], depth - 1)
+                            if ix is None or ix[0] != "in":
+                                ok = False
+                                break
+                            for c in cur:
+                                for k in ix[1]:
+                                    if not isinstance(c, list) or not (0 <= k < len(c)):
+                                        ok = False
+                                        break
+                                    nxt.append(c[k])
+                        else:
+                            sname, fname = sgm.split(".", 1) if "." in sgm else (None, sgm)
+                            st = self.fn.pdb.structs.get(sname) if sname else None
+                            names = [f_["name"] for f_ in st["fields"]] if st else []
+                            if fname not in names:
+                                ok = False
+                                break
+                            k = names.index(fname)
+                            for c in cur:
+                                if not isinstance(c, list) or k >= len(c):
+                                    ok = False
+                                    break
+                                nxt.append(c[k])
+                        if not ok:
+                            break
+                        cur = nxt
+                    if ok and cur and all(isinstance(x, int) for x in cur) and len(cur) <= MAXSET:
+                        return ("in", frozenset(cur))
             pe = self.flow.expr(d["ptr"])
             v = self.flow.hooks.load_override(pe, self)
             if v is None:
@@ -418,6 +447,7 @@ class Flow:
         fn = self.fn
         ub = {}
         lk = {}
+        self._dynloads = {}
         for b in fn.blocks:
             from .pdb import operands
             for i in b.insts:
@@ -425,7 +455,14 @@ class Flow:
                     if v.startswith("%") or (v.startswith("a") and v[1:].isdigit()):
                         ub.setdefault(v, set()).add(b.id)
                 if i.op == "load":
-                    lk.setdefault(self.expr(i["ptr"]), set()).add(b.id)
+                    pe = self.expr(i["ptr"])
+                    lk.setdefault(pe, set()).add(b.id)
+                    if vf.mentions(pe, lambda x: isinstance(x, tuple) and x and x[0] in ("phi", "select")):
+                        # t[i].f with a running index reads whichever cell of t the index names on the path
+                        r = pe
+                        while isinstance(r, tuple) and r and r[0] in ("fld", "idx", "ptradd"):
+                            r = r[1]
+                        self._dynloads.setdefault(r, set()).add(b.id)
         # a fact about r stays useful while anything computed from r (casts, compares, arithmetic, phis) is used
         derived = {}
         for i in fn.all_insts():
@@ -516,6 +553,12 @@ class Flow:
             elif k[0] == "M":
                 if self._loadkeys.get(k[1], set()) & reach or self.hooks.pinned(k[1]):
                     out[k] = v
+                elif self._dynloads:
+                    r = k[1]
+                    while isinstance(r, tuple) and r and r[0] in ("fld", "idx", "ptradd"):
+                        r = r[1]
+                    if self._dynloads.get(r, set()) & reach:
+                        out[k] = v
             elif k[0] in ("A", "U", "S"):
                 if self._useblocks.get(k[1], set()) & reach:
                     out[k] = v
@@ -689,6 +732,20 @@ class Flow:
             return facts
         return facts
 
+    @staticmethod
+    def _const_path(e):
+        """the access path of an address below its root when every index on it is a constant, else None"""
+        out = []
+        while isinstance(e, tuple) and e and e[0] in ("fld", "idx", "ptradd"):
+            if e[0] == "fld":
+                out.append(e[2])
+            else:
+                if not (isinstance(e[2], tuple) and e[2][0] == "c"):
+                    return None
+                out.append((e[0], e[2][1]))
+            e = e[1]
+        return tuple(out)
+
     # ---- memory kill
     def _kill_store(self, facts, pexpr):
         fld = vf.last_field(pexpr)
@@ -706,8 +763,10 @@ class Flow:
                     if kroot[1] != root[1]:
                         out[k] = v
                         continue
-                    # same local object: distinct fields do not alias
+                    # same local object: distinct fields do not alias, nor do elements with different constant indices
                     if fld and kfld and fld != kfld:
+                        out[k] = v
+                    elif self._const_path(k[1]) is not None and self._const_path(pexpr) is not None and self._const_path(k[1]) != self._const_path(pexpr):
                         out[k] = v
                     continue
                 if r_alloca and not k_alloca:
